@@ -142,6 +142,9 @@ PROPS["C08"] = {
         "tests": [T("TestC08Engine", {"checks": 25, "shards": 12, "gomaxprocs": [1, 2, 4, 16], "env": {"C08_MAXN": 4500}},
                     {"checks": 500, "shards": 16, "gomaxprocs": [1, 2, 4, 16], "env": {"C08_MAXN": 5000}}),
                   T("TestC08ErrorRecords", {"checks": 12, "shards": 6}, {"checks": 80, "shards": 12})],
+    }, {
+        "pkg": "command",
+        "tests": [T("TestC08Services", {"checks": 10, "shards": 4}, {"checks": 200, "shards": 8})],
     }],
 }
 
@@ -243,14 +246,17 @@ PROPS["C15"] = {
 
 PROPS["C16"] = {
     "level": "exploration",
+    "needs_sx_binary": True,
+    "kit_tools": ["nsrun"],
     "assumptions": ["lower bounds (no exit / no socket close before the delay) are one-sided on the monotonic clock; the upper bound is delay + 10 s",
-                    "late replies arrive at most at half the delay (later ones are a documented don't-care: scheduling and ring latencies)",
+                    "on the virtual wire late replies arrive at most at half the delay; on real sockets (TestC16NetnsLate) up to 50 ms before its end - a reply in the last 50 ms is a don't-care (scheduling latencies), and a miss only counts when it repeats on a calm machine",
                     "the virtual wire's Close time stands for the moment the kernel socket stops receiving"],
     "max_parallel": 12,
     "units": [{
         "pkg": "command",
         "tests": [T("TestC16ExitDelay", {"checks": 16, "shards": 12}, {"checks": 300, "shards": 16}),
-                  T("TestC16AppExitDelay", {"checks": 10, "shards": 4}, {"checks": 100, "shards": 8})],
+                  T("TestC16AppExitDelay", {"checks": 10, "shards": 4}, {"checks": 100, "shards": 8}),
+                  T("TestC16NetnsLate", {"checks": 6, "shards": 6}, {"checks": 60, "shards": 8})],
     }],
 }
 
